@@ -8,9 +8,6 @@
 // from C01's scoping rules; names first bound inside a `while` body do NOT count as bound behind the loop (the body may
 // run zero times) - that is exactly the case in which the property is false (finding F-while-scope, DESIGN 11.5).
 
-/// index carrier for triggers
-spec fn nw(i: int) -> bool { true }
-
 /// environments that differ at most in the driver's last answer
 spec fn ni_sim(a: EvalContext, b: EvalContext) -> bool {
     a.vars == b.vars && a.alt_vars == b.alt_vars && a.seed == b.seed && a.rng == b.rng
@@ -26,20 +23,19 @@ spec fn ni_has(v: Seq<(String, i64)>, n: int, x: Seq<char>) -> bool {
     exists|i: int| #[trigger] nw(i) && 0 <= i < n && i < v.len() && v[i].0@ == x
 }
 spec fn ni_scope(v: Seq<(String, i64)>, n: int) -> spec_fn(Seq<char>) -> bool { |x: Seq<char>| ni_has(v, n, x) }
-spec fn ni_add(s: spec_fn(Seq<char>) -> bool, name: Seq<char>) -> spec_fn(Seq<char>) -> bool { |x: Seq<char>| s(x) || x == name }
 /// the first m bindings carry the same names
 spec fn ni_same_names(v: Seq<(String, i64)>, w: Seq<(String, i64)>, m: int) -> bool {
     m <= v.len() && m <= w.len() && forall|i: int| 0 <= i < m ==> (#[trigger] v[i]).0@ == w[i].0@
 }
 
-proof fn lemma_ni_var_of(v: Seq<(String, i64)>, x: Seq<char>)
-    ensures (lookup_by(v, |k: String| k@ == x) is Some) == ni_has(v, v.len() as int, x)
+proof fn lemma_ni_var_of(v: Seq<(String, i64)>, x: Seq<char>, p: spec_fn(String) -> bool)
+    requires forall|k: String| #[trigger] p(k) == (k@ == x)
+    ensures (lookup_by(v, p) is Some) == ni_has(v, v.len() as int, x)
     decreases v.len()
 {
-    let p = |k: String| k@ == x;
     if v.len() > 0 {
         let v0 = v.drop_last();
-        lemma_ni_var_of(v0, x);
+        lemma_ni_var_of(v0, x, p);
         if p(v.last().0) {
             assert(nw(v.len() - 1) && v[v.len() - 1].0@ == x);
         } else if ni_has(v0, v0.len() as int, x) {
@@ -52,136 +48,6 @@ proof fn lemma_ni_var_of(v: Seq<(String, i64)>, x: Seq<char>)
     }
 }
 
-// ---- closed expressions, rows, statements ----
-
-/// every identifier e reads satisfies s
-spec fn expr_closed(e: Expr, s: spec_fn(Seq<char>) -> bool) -> bool
-    decreases e
-{
-    match e {
-        Expr::Number(_) => true,
-        Expr::Variable(name) => s(name@),
-        Expr::UnaryOp { op, expr } => expr_closed(*expr, s),
-        Expr::BinOp { op, left, right } => expr_closed(*left, s) && expr_closed(*right, s),
-        Expr::Func { name, args } => forall|i: int| 0 <= i < args@.len() ==> expr_closed(#[trigger] args@[i], s),
-    }
-}
-spec fn entry_closed(d: DataEntry, s: spec_fn(Seq<char>) -> bool) -> bool {
-    match d {
-        DataEntry::Expr(e) => expr_closed(e, s),
-        DataEntry::Bits { number, expr } => expr_closed(expr, s),
-        _ => true,
-    }
-}
-/// one of the first i statements of the block is `let x = ...` (C01: it binds x for the rest of the block)
-spec fn ni_let_in(ss: Seq<Stmt>, i: int, x: Seq<char>) -> bool {
-    exists|j: int| #[trigger] nw(j) && 0 <= j < i && j < ss.len() && (ss[j] matches Stmt::Let { name, expr } && name@ == x)
-}
-spec fn ni_ext(s: spec_fn(Seq<char>) -> bool, ss: Seq<Stmt>, i: int) -> spec_fn(Seq<char>) -> bool { |x: Seq<char>| s(x) || ni_let_in(ss, i, x) }
-
-/// statement t, reached with the names s bound, reads only variables. C01: a loop's body sees the counter and, statement by
-/// statement, the names its own earlier `let`s bound; nothing bound inside a loop or a `while` body counts behind it.
-spec fn stmt_closed(t: Stmt, s: spec_fn(Seq<char>) -> bool) -> bool
-    decreases t
-{
-    match t {
-        Stmt::Let { name, expr } => expr_closed(expr, s),
-        Stmt::DataRow { data, line } => forall|i: int| 0 <= i < data@.len() ==> entry_closed(#[trigger] data@[i], s),
-        Stmt::Loop { variable, max, inner } => expr_closed(max, s)
-            && forall|i: int| #[trigger] nw(i) && 0 <= i < inner@.len() ==> stmt_closed(inner@[i], ni_ext(ni_add(s, variable@), inner@, i)),
-        Stmt::While { condition, inner } => expr_closed(condition, s)
-            && forall|i: int| #[trigger] nw(i) && 0 <= i < inner@.len() ==> stmt_closed(inner@[i], ni_ext(s, inner@, i)),
-        Stmt::ResetRandom => true,
-    }
-}
-spec fn block_closed(ss: Seq<Stmt>, s: spec_fn(Seq<char>) -> bool) -> bool {
-    forall|i: int| #[trigger] nw(i) && 0 <= i < ss.len() ==> stmt_closed(ss[i], ni_ext(s, ss, i))
-}
-/// C15: the program reads no outputs
-spec fn prog_closed(ss: Seq<Stmt>) -> bool { block_closed(ss, |x: Seq<char>| false) }
-
-proof fn lemma_expr_mono(e: Expr, s: spec_fn(Seq<char>) -> bool, t: spec_fn(Seq<char>) -> bool)
-    requires expr_closed(e, s), forall|x: Seq<char>| s(x) ==> #[trigger] t(x)
-    ensures expr_closed(e, t)
-    decreases e
-{
-    match e {
-        Expr::UnaryOp { op, expr } => { lemma_expr_mono(*expr, s, t); }
-        Expr::BinOp { op, left, right } => { lemma_expr_mono(*left, s, t); lemma_expr_mono(*right, s, t); }
-        Expr::Func { name, args } => {
-            assert forall|i: int| 0 <= i < args@.len() implies expr_closed(#[trigger] args@[i], t) by { lemma_expr_mono(args@[i], s, t); }
-        }
-        _ => {}
-    }
-}
-proof fn lemma_stmt_mono(u: Stmt, s: spec_fn(Seq<char>) -> bool, t: spec_fn(Seq<char>) -> bool)
-    requires stmt_closed(u, s), forall|x: Seq<char>| s(x) ==> #[trigger] t(x)
-    ensures stmt_closed(u, t)
-    decreases u
-{
-    match u {
-        Stmt::Let { name, expr } => { lemma_expr_mono(expr, s, t); }
-        Stmt::DataRow { data, line } => {
-            assert forall|i: int| 0 <= i < data@.len() implies entry_closed(#[trigger] data@[i], t) by {
-                match data@[i] {
-                    DataEntry::Expr(e) => { lemma_expr_mono(e, s, t); }
-                    DataEntry::Bits { number, expr } => { lemma_expr_mono(expr, s, t); }
-                    _ => {}
-                }
-            }
-        }
-        Stmt::Loop { variable, max, inner } => {
-            lemma_expr_mono(max, s, t);
-            assert forall|i: int| #[trigger] nw(i) && 0 <= i < inner@.len() implies stmt_closed(inner@[i], ni_ext(ni_add(t, variable@), inner@, i)) by {
-                lemma_stmt_mono(inner@[i], ni_ext(ni_add(s, variable@), inner@, i), ni_ext(ni_add(t, variable@), inner@, i));
-            }
-        }
-        Stmt::While { condition, inner } => {
-            lemma_expr_mono(condition, s, t);
-            assert forall|i: int| #[trigger] nw(i) && 0 <= i < inner@.len() implies stmt_closed(inner@[i], ni_ext(t, inner@, i)) by {
-                lemma_stmt_mono(inner@[i], ni_ext(s, inner@, i), ni_ext(t, inner@, i));
-            }
-        }
-        Stmt::ResetRandom => {}
-    }
-}
-proof fn lemma_block_mono(ss: Seq<Stmt>, s: spec_fn(Seq<char>) -> bool, t: spec_fn(Seq<char>) -> bool)
-    requires block_closed(ss, s), forall|x: Seq<char>| s(x) ==> #[trigger] t(x)
-    ensures block_closed(ss, t)
-{
-    assert forall|i: int| #[trigger] nw(i) && 0 <= i < ss.len() implies stmt_closed(ss[i], ni_ext(t, ss, i)) by {
-        lemma_stmt_mono(ss[i], ni_ext(s, ss, i), ni_ext(t, ss, i));
-    }
-}
-/// the rest of a block after its first statement, with the names that statement leaves bound
-proof fn lemma_block_rest(ss: Seq<Stmt>, s: spec_fn(Seq<char>) -> bool, t: spec_fn(Seq<char>) -> bool)
-    requires
-        ss.len() > 0, block_closed(ss, s), forall|x: Seq<char>| s(x) ==> #[trigger] t(x),
-        ss[0] matches Stmt::Let { name, expr } ==> t(name@),
-    ensures block_closed(ss.skip(1), t)
-{
-    let r = ss.skip(1);
-    assert forall|i: int| #[trigger] nw(i) && 0 <= i < r.len() implies stmt_closed(r[i], ni_ext(t, r, i)) by {
-        assert(nw(i + 1) && r[i] == ss[i + 1]);
-        assert forall|x: Seq<char>| ni_ext(s, ss, i + 1)(x) implies #[trigger] ni_ext(t, r, i)(x) by {
-            if !s(x) {
-                let j = choose|j: int| #[trigger] nw(j) && 0 <= j < i + 1 && j < ss.len() && (ss[j] matches Stmt::Let { name, expr } && name@ == x);
-                if j > 0 { assert(nw(j - 1) && r[j - 1] == ss[j]); }
-            }
-        }
-        lemma_stmt_mono(ss[i + 1], ni_ext(s, ss, i + 1), ni_ext(t, r, i));
-    }
-}
-/// what the first statement of a closed block may read
-proof fn lemma_block_first(ss: Seq<Stmt>, s: spec_fn(Seq<char>) -> bool)
-    requires ss.len() > 0, block_closed(ss, s)
-    ensures stmt_closed(ss[0], s)
-{
-    assert(nw(0));
-    assert forall|x: Seq<char>| ni_ext(s, ss, 0)(x) implies #[trigger] s(x) by {}
-    lemma_stmt_mono(ss[0], ni_ext(s, ss, 0), s);
-}
-
 // ---- evaluation does not look at the driver's answer when every identifier is a variable ----
 
 proof fn lemma_eval_ni(e: Expr, a: &EvalContext, b: &EvalContext, r: Result<i64, ExprError>)
@@ -192,10 +58,7 @@ proof fn lemma_eval_ni(e: Expr, a: &EvalContext, b: &EvalContext, r: Result<i64,
     match e {
         Expr::Number(n) => {}
         Expr::Variable(name) => {
-            lemma_ni_var_of(a.vars.values@, name@);
-            assert(ni_scope(a.vars.values@, a.vars.values@.len() as int)(name@));
-            assert(ni_has(a.vars.values@, a.vars.values@.len() as int, name@));
-            assert(lookup_by(a.vars.values@, |k: String| k@ == name@) is Some);
+            lemma_ni_var_of(a.vars.values@, name@, |k: String| k@ == name@);
             assert(a.var_of(name@) is Some);
             assert(a.var_of(name@) == b.var_of(name@));
             assert(a.read(name@) == b.read(name@));
@@ -439,13 +302,160 @@ proof fn lemma_bind_names(a: EvalContext, name: Seq<char>, val: i64, b: EvalCont
 
 // ---- one step ----
 
-/// C15: a step of a closed configuration does not depend on the driver's answer: the configuration with another
-/// answer takes the same step (same label: the same row, with the same entries and line), and both stay closed
-proof fn lemma_step_ni(c1: Config, c2: Config, l: Label, d1: Config) -> (d2: Config)
-    requires step(c1, c2, l), ni_cfg(c1, d1), ni_inv(c1)
-    ensures step(d1, d2, l), ni_cfg(c2, d2), ni_inv(c2), d2.ctx.outputs == d1.ctx.outputs
+spec fn ni_d2(c2: Config, d1: Config) -> Config { Config { k: c2.k, ctx: ni_with_outputs(c2.ctx, d1.ctx) } }
+/// what every case of the step lemma establishes
+spec fn ni_step_post(c1: Config, c2: Config, l: Label, d1: Config) -> bool {
+    let d2 = ni_d2(c2, d1);
+    step(d1, d2, l) && ni_cfg(c2, d2) && ni_inv(c2)
+}
+spec fn ni_k_inv(k: Seq<Frame>, ctx: EvalContext) -> bool {
+    k_closed(k, ctx.vars.values@, ctx.vars.frame_stack@, ctx.vars.values@.len() as int, ctx.vars.frame_stack@.len() as int)
+}
+
+/// end of a block: next iteration / end of the loop / back to the `while` test
+proof fn lemma_step_ni_end(c1: Config, c2: Config, l: Label, d1: Config)
+    requires step(c1, c2, l), ni_cfg(c1, d1), ni_inv(c1), c1.k[0] matches Frame::Block(ss) && ss.len() == 0
+    ensures ni_step_post(c1, c2, l, d1)
 {
-    let d2 = Config { k: c2.k, ctx: ni_with_outputs(c2.ctx, d1.ctx) };
+    reveal_with_fuel(k_closed, 3);
+    let d2 = ni_d2(c2, d1);
+    let v = c1.ctx.vars.values@;
+    let fs = c1.ctx.vars.frame_stack@;
+    let n = v.len() as int;
+    let d = fs.len() as int;
+    let k = c1.k;
+    assert(d1.ctx == ni_with_outputs(c1.ctx, d1.ctx));
+    assert(k.skip(1)[0] == k[1]);
+    assert(k.skip(1).skip(1) =~= k.skip(2));
+    match k[1] {
+        Frame::Loop { var, bound, body, counter } => {
+            let m = fs[d - 1] as int;
+            let s0 = ni_scope(v, m);
+            assert(block_closed(body, ni_add(s0, var)));
+            assert(k_closed(k.skip(2), v, fs, m, d - 1));
+            if counter + 1 < bound {
+                lemma_bind_names(c1.ctx, var, (counter + 1) as i64, c2.ctx);
+                let w = c2.ctx.vars.values@;
+                let n2 = w.len() as int;
+                let t = ni_scope(w, n2);
+                assert(ni_same_names(v, w, m));
+                assert forall|x: Seq<char>| ni_add(s0, var)(x) implies #[trigger] t(x) by {
+                    if s0(x) {
+                        lemma_scope_same(v, w, m, m, x);
+                        let i = choose|i: int| #[trigger] nw(i) && 0 <= i < m && i < w.len() && w[i].0@ == x;
+                        assert(nw(i));
+                    }
+                }
+                lemma_block_mono(body, ni_add(s0, var), t);
+                let t0 = ni_scope(w, m);
+                assert forall|x: Seq<char>| ni_add(s0, var)(x) implies #[trigger] ni_add(t0, var)(x) by {
+                    if s0(x) { lemma_scope_same(v, w, m, m, x); }
+                }
+                lemma_block_mono(body, ni_add(s0, var), ni_add(t0, var));
+                lemma_k_ext(k.skip(2), v, fs, w, fs, m, d - 1);
+                let k2 = c2.k;
+                assert(k2[0] == Frame::Block(body));
+                assert(k2.skip(1)[0] == (Frame::Loop { var, bound, body, counter: (counter + 1) as i64 }));
+                assert(k2.skip(1).skip(1) =~= k.skip(2));
+                assert(ni_k_inv(c2.k, c2.ctx));
+            } else {
+                let w = c2.ctx.vars.values@;
+                assert(w =~= v.take(m));
+                assert(ni_same_names(v, w, m));
+                lemma_k_ext(k.skip(2), v, fs, w, c2.ctx.vars.frame_stack@, m, d - 1);
+                assert(ni_k_inv(c2.k, c2.ctx));
+            }
+        }
+        Frame::While { cond, body } => {
+            assert(ni_k_inv(c2.k, c2.ctx));
+        }
+        _ => {}
+    }
+}
+
+/// the first statement of a block
+proof fn lemma_step_ni_stmt(c1: Config, c2: Config, l: Label, d1: Config)
+    requires step(c1, c2, l), ni_cfg(c1, d1), ni_inv(c1), c1.k[0] matches Frame::Block(ss) && ss.len() > 0
+    ensures ni_step_post(c1, c2, l, d1)
+{
+    reveal_with_fuel(k_closed, 3);
+    let d2 = ni_d2(c2, d1);
+    let v = c1.ctx.vars.values@;
+    let fs = c1.ctx.vars.frame_stack@;
+    let n = v.len() as int;
+    let d = fs.len() as int;
+    let s = ni_scope(v, n);
+    let k = c1.k;
+    let ss = k[0]->Block_0;
+    assert(d1.ctx == ni_with_outputs(c1.ctx, d1.ctx));
+    let rest = k.update(0, Frame::Block(ss.skip(1)));
+    assert(rest[0] == Frame::Block(ss.skip(1)));
+    assert(rest.skip(1) =~= k.skip(1));
+    assert(block_closed(ss, s));
+    assert(k_closed(k.skip(1), v, fs, n, d));
+    lemma_block_first(ss, s);
+    match ss[0] {
+        Stmt::Let { name, expr } => {
+            let rr = choose|rr: Result<i64, ExprError>| #[trigger] wit(rr) && rr is Ok && eval_rel(expr, &c1.ctx, rr) && is_bind(c1.ctx, name@, rr->Ok_0, c2.ctx);
+            lemma_eval_ni(expr, &c1.ctx, &d1.ctx, rr);
+            assert(wit(rr));
+            lemma_bind_names(c1.ctx, name@, rr->Ok_0, c2.ctx);
+            let w = c2.ctx.vars.values@;
+            let n2 = w.len() as int;
+            let t = ni_scope(w, n2);
+            assert forall|x: Seq<char>| s(x) implies #[trigger] t(x) by {
+                lemma_scope_same(v, w, n, n, x);
+                let i = choose|i: int| #[trigger] nw(i) && 0 <= i < n && i < w.len() && w[i].0@ == x;
+                assert(nw(i));
+            }
+            lemma_block_rest(ss, s, t);
+            lemma_k_grow(k.skip(1), v, fs, n, d, w, n2);
+            assert(c2.k =~= rest);
+            assert(ni_k_inv(c2.k, c2.ctx));
+            assert(is_bind(d1.ctx, name@, rr->Ok_0, d2.ctx));
+        }
+        Stmt::DataRow { data, line } => {
+            let r = l->Emit_0;
+            lemma_entries_ni(data@, &c1.ctx, &d1.ctx, r.entries);
+            lemma_block_rest(ss, s, s);
+            assert(c2.k =~= rest);
+            assert(ni_k_inv(c2.k, c2.ctx));
+        }
+        Stmt::Loop { variable, max, inner } => {
+            let rr = choose|rr: Result<i64, ExprError>| #[trigger] wit(rr) && rr is Ok && eval_rel(max, &c1.ctx, rr)
+                && c2.k =~= seq![Frame::LoopEntry { var: variable@, bound: rr->Ok_0, body: inner@ }] + rest;
+            lemma_eval_ni(max, &c1.ctx, &d1.ctx, rr);
+            assert(wit(rr));
+            lemma_block_rest(ss, s, s);
+            assert(block_closed(inner@, ni_add(s, variable@)));
+            assert(c2.k[0] == (Frame::LoopEntry { var: variable@, bound: rr->Ok_0, body: inner@ }));
+            assert(c2.k.skip(1) =~= rest);
+            assert(k_closed(rest, v, fs, n, d));
+            assert(ni_k_inv(c2.k, c2.ctx));
+        }
+        Stmt::While { condition, inner } => {
+            lemma_block_rest(ss, s, s);
+            assert(block_closed(inner@, s));
+            assert(c2.k[0] == (Frame::While { cond: condition, body: inner@ }));
+            assert(c2.k.skip(1) =~= rest);
+            assert(k_closed(rest, v, fs, n, d));
+            assert(ni_k_inv(c2.k, c2.ctx));
+        }
+        Stmt::ResetRandom => {
+            lemma_block_rest(ss, s, s);
+            assert(c2.k =~= rest);
+            assert(ni_k_inv(c2.k, c2.ctx));
+        }
+    }
+}
+
+/// entering a loop (or skipping it when the bound is not positive)
+proof fn lemma_step_ni_entry(c1: Config, c2: Config, l: Label, d1: Config)
+    requires step(c1, c2, l), ni_cfg(c1, d1), ni_inv(c1), c1.k[0] is LoopEntry
+    ensures ni_step_post(c1, c2, l, d1)
+{
+    reveal_with_fuel(k_closed, 3);
+    let d2 = ni_d2(c2, d1);
     let v = c1.ctx.vars.values@;
     let fs = c1.ctx.vars.frame_stack@;
     let n = v.len() as int;
@@ -454,96 +464,9 @@ proof fn lemma_step_ni(c1: Config, c2: Config, l: Label, d1: Config) -> (d2: Con
     let k = c1.k;
     assert(d1.ctx == ni_with_outputs(c1.ctx, d1.ctx));
     match k[0] {
-        Frame::Block(ss) => {
-            if ss.len() == 0 {
-                match k[1] {
-                    Frame::Loop { var, bound, body, counter } => {
-                        assert(k.skip(1)[0] == k[1]);
-                        assert(k.skip(1).skip(1) =~= k.skip(2));
-                        let m = fs[d - 1] as int;
-                        if counter + 1 < bound {
-                            lemma_bind_names(c1.ctx, var, (counter + 1) as i64, c2.ctx);
-                            let w = c2.ctx.vars.values@;
-                            let n2 = w.len() as int;
-                            let t = ni_scope(w, n2);
-                            let s0 = ni_scope(v, m);
-                            assert forall|x: Seq<char>| ni_add(s0, var)(x) implies #[trigger] t(x) by {
-                                if s0(x) {
-                                    lemma_scope_same(v, w, n, m, x);
-                                    let i = choose|i: int| #[trigger] nw(i) && 0 <= i < m && i < w.len() && w[i].0@ == x;
-                                    assert(nw(i));
-                                }
-                            }
-                            lemma_block_mono(body, ni_add(s0, var), t);
-                            let t0 = ni_scope(w, m);
-                            assert forall|x: Seq<char>| ni_add(s0, var)(x) implies #[trigger] ni_add(t0, var)(x) by {
-                                if s0(x) { lemma_scope_same(v, w, n, m, x); }
-                            }
-                            lemma_block_mono(body, ni_add(s0, var), ni_add(t0, var));
-                            assert(ni_same_names(v, w, m));
-                            lemma_k_ext(k.skip(2), v, fs, w, fs, m, d - 1);
-                            let k2 = c2.k;
-                            assert(k2[0] == Frame::Block(body));
-                            assert(k2.skip(1)[0] == (Frame::Loop { var, bound, body, counter: (counter + 1) as i64 }));
-                            assert(k2.skip(1).skip(1) =~= k.skip(2));
-                        } else {
-                            let w = c2.ctx.vars.values@;
-                            assert(w =~= v.take(m));
-                            assert(ni_same_names(v, w, m));
-                            lemma_k_ext(k.skip(2), v, fs, w, c2.ctx.vars.frame_stack@, m, d - 1);
-                        }
-                    }
-                    Frame::While { cond, body } => {}
-                    _ => {}
-                }
-            } else {
-                let rest = k.update(0, Frame::Block(ss.skip(1)));
-                assert(rest[0] == Frame::Block(ss.skip(1)));
-                assert(rest.skip(1) =~= k.skip(1));
-                lemma_block_first(ss, s);
-                match ss[0] {
-                    Stmt::Let { name, expr } => {
-                        let rr = choose|rr: Result<i64, ExprError>| #[trigger] wit(rr) && rr is Ok && eval_rel(expr, &c1.ctx, rr) && is_bind(c1.ctx, name@, rr->Ok_0, c2.ctx);
-                        lemma_eval_ni(expr, &c1.ctx, &d1.ctx, rr);
-                        assert(wit(rr));
-                        lemma_bind_names(c1.ctx, name@, rr->Ok_0, c2.ctx);
-                        let w = c2.ctx.vars.values@;
-                        let n2 = w.len() as int;
-                        let t = ni_scope(w, n2);
-                        assert forall|x: Seq<char>| s(x) implies #[trigger] t(x) by {
-                            lemma_scope_same(v, w, n, n, x);
-                            let i = choose|i: int| #[trigger] nw(i) && 0 <= i < n && i < w.len() && w[i].0@ == x;
-                            assert(nw(i));
-                        }
-                        lemma_block_rest(ss, s, t);
-                        lemma_k_grow(k.skip(1), v, fs, n, d, w, n2);
-                    }
-                    Stmt::DataRow { data, line } => {
-                        let r = l->Emit_0;
-                        lemma_entries_ni(data@, &c1.ctx, &d1.ctx, r.entries);
-                        lemma_block_rest(ss, s, s);
-                    }
-                    Stmt::Loop { variable, max, inner } => {
-                        let rr = choose|rr: Result<i64, ExprError>| #[trigger] wit(rr) && rr is Ok && eval_rel(max, &c1.ctx, rr)
-                            && c2.k =~= seq![Frame::LoopEntry { var: variable@, bound: rr->Ok_0, body: inner@ }] + rest;
-                        lemma_eval_ni(max, &c1.ctx, &d1.ctx, rr);
-                        assert(wit(rr));
-                        lemma_block_rest(ss, s, s);
-                        assert(block_closed(inner@, ni_add(s, variable@)));
-                        assert(c2.k.skip(1) =~= rest);
-                    }
-                    Stmt::While { condition, inner } => {
-                        lemma_block_rest(ss, s, s);
-                        assert(block_closed(inner@, s));
-                        assert(c2.k.skip(1) =~= rest);
-                    }
-                    Stmt::ResetRandom => {
-                        lemma_block_rest(ss, s, s);
-                    }
-                }
-            }
-        }
         Frame::LoopEntry { var, bound, body } => {
+            assert(block_closed(body, ni_add(s, var)));
+            assert(k_closed(k.skip(1), v, fs, n, d));
             if bound > 0 {
                 let cm = choose|cm: EvalContext| #[trigger] cm.wf() && is_push(c1.ctx, cm) && is_bind(cm, var, 0, c2.ctx);
                 let dm = ni_with_outputs(cm, d1.ctx);
@@ -573,19 +496,61 @@ proof fn lemma_step_ni(c1: Config, c2: Config, l: Label, d1: Config) -> (d2: Con
                 assert(k2[0] == Frame::Block(body));
                 assert(k2.skip(1)[0] == (Frame::Loop { var, bound, body, counter: 0 }));
                 assert(k2.skip(1).skip(1) =~= k.skip(1));
+                assert(c1.ctx.vars.values.len() as int == n);
                 assert(gs[gs.len() - 1] == n);
+                assert(ni_k_inv(c2.k, c2.ctx));
+            } else {
+                assert(ni_k_inv(c2.k, c2.ctx));
             }
         }
+        _ => {}
+    }
+}
+
+/// testing a `while` condition
+proof fn lemma_step_ni_while(c1: Config, c2: Config, l: Label, d1: Config)
+    requires step(c1, c2, l), ni_cfg(c1, d1), ni_inv(c1), c1.k[0] is While
+    ensures ni_step_post(c1, c2, l, d1)
+{
+    reveal_with_fuel(k_closed, 3);
+    let d2 = ni_d2(c2, d1);
+    let v = c1.ctx.vars.values@;
+    let fs = c1.ctx.vars.frame_stack@;
+    let n = v.len() as int;
+    let d = fs.len() as int;
+    let s = ni_scope(v, n);
+    let k = c1.k;
+    assert(d1.ctx == ni_with_outputs(c1.ctx, d1.ctx));
+    match k[0] {
         Frame::While { cond, body } => {
             let rr = choose|rr: Result<i64, ExprError>| #[trigger] wit(rr) && rr is Ok && eval_rel(cond, &c1.ctx, rr)
                 && (if rr->Ok_0 != 0 { c2.k =~= seq![Frame::Block(body)] + c1.k } else { c2.k =~= c1.k.skip(1) });
             lemma_eval_ni(cond, &c1.ctx, &d1.ctx, rr);
             assert(wit(rr));
-            if rr->Ok_0 != 0 { assert(c2.k.skip(1) =~= k); }
+            assert(block_closed(body, s));
+            if rr->Ok_0 != 0 {
+                assert(c2.k[0] == Frame::Block(body));
+                assert(c2.k.skip(1) =~= k);
+            }
+            assert(ni_k_inv(c2.k, c2.ctx));
         }
+        _ => {}
+    }
+}
+
+/// C15: a step of a closed configuration does not depend on the driver's answer: the configuration with another
+/// answer takes the same step (same label: the same row, with the same entries and line), and both stay closed
+proof fn lemma_step_ni(c1: Config, c2: Config, l: Label, d1: Config) -> (d2: Config)
+    requires step(c1, c2, l), ni_cfg(c1, d1), ni_inv(c1)
+    ensures step(d1, d2, l), ni_cfg(c2, d2), ni_inv(c2), d2.ctx.outputs == d1.ctx.outputs // [C15.ni.step]
+{
+    match c1.k[0] {
+        Frame::Block(ss) => { if ss.len() == 0 { lemma_step_ni_end(c1, c2, l, d1); } else { lemma_step_ni_stmt(c1, c2, l, d1); } }
+        Frame::LoopEntry { var, bound, body } => { lemma_step_ni_entry(c1, c2, l, d1); }
+        Frame::While { cond, body } => { lemma_step_ni_while(c1, c2, l, d1); }
         Frame::Loop { var, bound, body, counter } => {}
     }
-    d2
+    ni_d2(c2, d1)
 }
 
 /// ... and so do any number of silent steps
@@ -607,7 +572,7 @@ proof fn lemma_reach_ni(c1: Config, c2: Config, n: nat, d1: Config) -> (d2: Conf
 /// two runs continue from configurations that again differ only in the stored answer
 proof fn theorem_emits_ni(c1: Config, c2: Config, row: RowS, d1: Config) -> (d2: Config)
     requires emits(c1, c2, row), ni_cfg(c1, d1), ni_inv(c1)
-    ensures emits(d1, d2, row), ni_cfg(c2, d2), ni_inv(c2), d2.ctx.outputs == d1.ctx.outputs
+    ensures emits(d1, d2, row), ni_cfg(c2, d2), ni_inv(c2), d2.ctx.outputs == d1.ctx.outputs // [C15.ni.rows]
 {
     let (n, cm) = choose|n: nat, cm: Config| #[trigger] witn(n, cm) && reach(c1, cm, n) && step(cm, c2, Label::Emit(row));
     let dm = lemma_reach_ni(c1, cm, n, d1);
@@ -618,7 +583,7 @@ proof fn theorem_emits_ni(c1: Config, c2: Config, row: RowS, d1: Config) -> (d2:
 /// C15, end of the test: if the program can run to its end without a further row with one answer, it can with any other
 proof fn theorem_silent_ni(c1: Config, c2: Config, d1: Config) -> (d2: Config)
     requires silent_to(c1, c2), ni_cfg(c1, d1), ni_inv(c1)
-    ensures silent_to(d1, d2), ni_cfg(c2, d2), ni_inv(c2), d2.ctx.outputs == d1.ctx.outputs
+    ensures silent_to(d1, d2), ni_cfg(c2, d2), ni_inv(c2), d2.ctx.outputs == d1.ctx.outputs // [C15.ni.end]
 {
     let n = choose|n: nat| #[trigger] witnn(n) && reach(c1, c2, n);
     let d2 = lemma_reach_ni(c1, c2, n, d1);
@@ -628,7 +593,7 @@ proof fn theorem_silent_ni(c1: Config, c2: Config, d1: Config) -> (d2: Config)
 /// C15, error items: an evaluation can fail in the one run exactly if it can in the other
 proof fn theorem_err_ni(c1: Config, d1: Config)
     requires err_reachable(c1), ni_cfg(c1, d1), ni_inv(c1)
-    ensures err_reachable(d1)
+    ensures err_reachable(d1) // [C15.ni.errors]
 {
     let (n, cm) = choose|n: nat, cm: Config| #[trigger] witn(n, cm) && reach(c1, cm, n) && can_err(cm);
     let dm = lemma_reach_ni(c1, cm, n, d1);
@@ -662,7 +627,7 @@ proof fn theorem_err_ni(c1: Config, d1: Config)
 /// [C15.iter.fresh-state] / [C15.static.fresh-state])
 proof fn lemma_ni_start(stmts: Seq<Stmt>, ctx: EvalContext)
     requires prog_closed(stmts), ctx.wf(), ctx.vars.values@.len() == 0, ctx.vars.frame_stack@.len() == 0
-    ensures ni_inv(Config { k: seq![Frame::Block(stmts)], ctx })
+    ensures ni_inv(Config { k: seq![Frame::Block(stmts)], ctx }) // [C15.ni.start]
 {
     let k = seq![Frame::Block(stmts)];
     let v = ctx.vars.values@;
@@ -671,4 +636,36 @@ proof fn lemma_ni_start(stmts: Seq<Stmt>, ctx: EvalContext)
     assert(k.skip(1).len() == 0);
     assert(k_closed(k.skip(1), v, ctx.vars.frame_stack@, 0, 0));
     assert(k[0] == Frame::Block(stmts));
+}
+
+/// C15 stated over the contract of `get_row` / `next` (spec/shape.spec.rs: got_row), which both the dynamic and the static
+/// iterator satisfy: when a row was fetched from the program with the answer in `old_ctx` stored, the run that has any other
+/// answer stored (`other`) emits the same source row `src` and moves to the same continuation; the evaluated row - complete
+/// input vector, expected values, line - is a function of `src`, the column binding and the previous entries only
+/// (row_matches, expand_spec), so it is the same row.
+spec fn ni_wrc(src: RowS, d2: Config) -> bool { true }
+proof fn theorem_got_row_ni<'a>(old: DataRowIteratorTestData<'a>, old_ctx: EvalContext, fin: DataRowIteratorTestData<'a>, fin_ctx: EvalContext,
+        row: EvaluatedRow<'a>, other: EvalContext)
+    requires
+        DataRowIteratorTestData::got_row(old, old_ctx, fin, fin_ctx, row), old.cache@.len() == 0,
+        ni_sim(old_ctx, other), ni_inv(abs(old.iter, old_ctx)),
+    ensures
+        ni_inv(abs(fin.iter, fin_ctx)),
+        exists|src: RowS, d2: Config| #[trigger] ni_wrc(src, d2)
+            && emits(abs(old.iter, old_ctx), abs(fin.iter, fin_ctx), src)
+            && emits(abs(old.iter, other), d2, src)
+            && d2.k == fin.iter.abs_k() && ni_sim(fin_ctx, d2.ctx) && d2.ctx.outputs == other.outputs
+            && old.cols().expand_spec(src).len() > 0 && fin.row_matches(row, old.cols().expand_spec(src)[0], old.prev), // [C15.ni.got-row]
+{
+    let p = choose|p: Seq<RowS>| #[trigger] p.len() > 0
+        && (old.cache@.len() > 0 ==> p == old.pending(old.cache@) && fin.iter == old.iter && fin_ctx == old_ctx)
+        && (old.cache@.len() == 0 ==> (exists|src: RowS| #[trigger] emits(abs(old.iter, old_ctx), abs(fin.iter, fin_ctx), src)
+            && p == old.cols().expand_spec(src)))
+        && fin.pending(fin.cache@) == p.skip(1)
+        && fin.row_matches(row, p[0], old.prev)
+        && (fin.prev matches Some(pv) && pv@ == p[0].entries);
+    let src = choose|src: RowS| #[trigger] emits(abs(old.iter, old_ctx), abs(fin.iter, fin_ctx), src) && p == old.cols().expand_spec(src);
+    let d1 = abs(old.iter, other);
+    let d2 = theorem_emits_ni(abs(old.iter, old_ctx), abs(fin.iter, fin_ctx), src, d1);
+    assert(ni_wrc(src, d2));
 }
